@@ -359,6 +359,8 @@ class Path:
         self.obj_ids = {}
         self.obj_keep = []
         self.bytes_syms = []  # symbolic byte strings: chars <= 255 is imposed per read and at concretisation
+        self.no_fork = False  # body phase of a modular loop cut: the code before the loop runs along one feasible path only
+        self.n_input_pc = None  # length of pc when the target function starts (input assumptions and preconditions only)
 
     # -- symbols
     def fresh(self, kind, hint='v'):
@@ -395,6 +397,21 @@ class Path:
                     self.last_model = None
             except z3.Z3Exception:
                 self.last_model = None
+
+    def reset_to_inputs(self):
+        """forget every decision and assumption made since the target function started (modular loop cut: the state at the loop
+        head is described by the invariant alone)"""
+        self.pc = list(self.pc[:self.n_input_pc])
+        s2 = z3.Solver()
+        if getattr(self, 'has_quant', False):
+            s2.set('auto_config', False)
+            s2.set('mbqi', False)
+        s2.set('timeout', self.engine.branch_timeout_ms)
+        for c in self.pc:
+            s2.add(c)
+        self.solver = s2
+        self.last_model = None
+        self.pending_model = None
 
     def use_quantifier_mode(self):
         """path conditions with quantifiers: decide branch feasibility by E-matching only (MBQI off): `unsat` answers stay
@@ -453,7 +470,8 @@ class Path:
             ft = self._feasible(cond)
             if ft and ff:
                 d = True
-                self.alternatives.append(self.taken + [False])
+                if not self.no_fork:
+                    self.alternatives.append(self.taken + [False])
             elif ft:
                 d = True
                 self.engine.stats['forced'] += 1
@@ -2196,17 +2214,34 @@ class Interp:
             g = spec['inv'](self, fr, state)
             return as_bool_term(g)
 
-        if 'before_entry' in spec:
-            spec['before_entry'](self, fr)
-        if is_for:
-            q0 = (view.hi - 1) if view.rev else view.lo
-            p.oblige(f'{name}.invariant_holds_on_entry', inv_at(q0))
-        else:
-            p.oblige(f'{name}.invariant_holds_on_entry', inv_at(None))
-        # havoc
         hav = spec.get('havoc')
         if hav is None:
             hav = sorted({n.id for b in st.body for n in ast.walk(b) if isinstance(n, ast.Name) and isinstance(n.ctx, ast.Store)})
+        phase = getattr(p.engine, 'loop_phase', None) if spec.get('modular') else None
+        if phase is not None:
+            # modular cut: the code before the loop (phase 'entry', all its paths, ends at the loop head) and one iteration plus the
+            # code behind the loop (phase 'body', started from the invariant alone) are explored separately.  Sound if everything
+            # the body can read at the loop head is either havocked/forgotten or the same on every path: checked by fingerprint.
+            fp = frame_fingerprint(p, fr, set(hav) | set(spec.get('forget', [])))
+            p.oblige(f'{name}.state_at_loop_head_is_path_independent[{fp}]', True)
+        if phase != 'body':
+            if 'before_entry' in spec:
+                spec['before_entry'](self, fr)
+            if is_for:
+                q0 = (view.hi - 1) if view.rev else view.lo
+                p.oblige(f'{name}.invariant_holds_on_entry', inv_at(q0))
+            else:
+                p.oblige(f'{name}.invariant_holds_on_entry', inv_at(None))
+        if phase == 'entry':
+            raise PathEnd('modular loop cut: entry phase ends at the loop head')
+        if phase == 'body':
+            keep = [ob for ob in p.obligs if '.state_at_loop_head_is_path_independent[' in ob.name]
+            p.obligs[:] = keep  # (what the code before the loop owes is checked in the entry phase)
+            p.reset_to_inputs()
+            p.no_fork = False
+        for n_ in spec.get('forget', []):
+            fr.locals.pop(n_, None)
+        # havoc
         for n_ in hav:
             try:
                 cur = fr.lookup(n_)
@@ -2291,6 +2326,45 @@ class Interp:
         if isinstance(cur, tuple):
             return tuple(self.havoc_like(x, f'{hint}{i}') for i, x in enumerate(cur))
         raise Unsupported(f'cannot havoc loop variable {hint} of kind {kind_of(cur)}')
+
+
+def frame_fingerprint(p, fr, exclude):
+    """hash of everything a loop body can read from the frame at the loop head, apart from the names in `exclude`"""
+    import hashlib
+
+    def fpv(v, d=0):
+        if isinstance(v, Sym):
+            return f'{v.kind}:{z3.simplify(v.t).sexpr()}'
+        if isinstance(v, Opt):
+            return f'opt({z3.simplify(v.isnone).sexpr() if z3.is_expr(v.isnone) else v.isnone},{fpv(v.val, d)})'
+        if v is None or isinstance(v, (bool, int, str, bytes, float)):
+            return repr(v)
+        if isinstance(v, (tuple, list)):
+            return '(' + ','.join(fpv(x, d + 1) for x in v) + ')' if d < 4 else '(...)'
+        if isinstance(v, SList):
+            return 'SList[' + ','.join(fpv(x, d + 1) for x in v.items) + ']' if d < 4 else 'SList[...]'
+        if isinstance(v, SDict):
+            return 'SDict{' + ','.join(f'{fpv(k, d + 1)}:{fpv(x, d + 1)}' for k, x in v.items.items()) + '}' if d < 4 else 'SDict{...}'
+        if isinstance(v, Obj):
+            if d >= 2:
+                return f'Obj:{v.name}'
+            return f'Obj:{v.name}{{' + ','.join(f'{k}={fpv(x, d + 1)}' for k, x in sorted(v.fields.items())) + '}'
+        if isinstance(v, Func):
+            return f'Func:{v.name}'
+        if isinstance(v, BoundMethod):
+            return f'BoundMethod:{v.name}:{fpv(v.recv, d + 1)}'
+        if type(v).__name__ == 'SymObj':
+            return f'SymObj:{z3.simplify(v.id).sexpr()}'
+        if type(v).__name__ == 'SymList':
+            return f'SymList:{v.elems.sexpr()}:{z3.simplify(v.length).sexpr()}'
+        pat = getattr(getattr(v, '__self__', None), 'pattern', None)
+        if pat is not None:
+            return f'{type(v).__name__}:{getattr(v, "__name__", "")}:{pat!r}'
+        return f'{type(v).__name__}:{getattr(v, "__qualname__", getattr(v, "__name__", ""))}'
+
+    parts = [f'{k}={fpv(v)}' for k, v in sorted(fr.locals.items()) if k not in exclude]
+    parts.append('heap=' + ';'.join(f'{k}:{a.sexpr()}' for k, a in sorted(p.heap.items(), key=lambda kv: str(kv[0]))))
+    return hashlib.sha1('|'.join(parts).encode('utf-8', 'replace')).hexdigest()[:16]
 
 
 class _IterState:
